@@ -315,3 +315,33 @@ Lemma centres_old_witness_values :
   list_eqb Qeq_bool (centres_old [(-10)%Q; (-5)%Q; 0%Q]) [(5 # 2)%Q; (15 # 2)%Q] = true
   /\ list_eqb Qeq_bool (centres [(-10)%Q; (-5)%Q; 0%Q]) [((-15) # 2)%Q; ((-5) # 2)%Q] = true.
 Proof. split; vm_compute; reflexivity. Qed.
+
+(* ---------------- DrapeModel: one centroid per layer for a well-formed model ---------------- *)
+Lemma drape_xy_length prisms : length (drape_xy prisms) = drape_total prisms.
+Proof.
+  induction prisms as [|p r IH]; simpl; [reflexivity|].
+  unfold drape_xy in *. simpl. rewrite app_length, repeat_length, IH. reflexivity.
+Qed.
+
+Lemma drape_tops_length bottoms : forall prisms start,
+  drape_wf start prisms -> start + drape_total prisms <= length bottoms ->
+  length (drape_tops prisms bottoms) = drape_total prisms.
+Proof.
+  induction prisms as [|p r IH]; intros start Hwf Hle; [reflexivity|].
+  destruct Hwf as [Hf [Hc Hwf]]. simpl in Hle.
+  unfold drape_tops in *. simpl. rewrite app_length. rewrite (IH (start + pcount p) Hwf) by lia.
+  simpl. f_equal.
+  destruct (pcount p) as [|c] eqn:Ec; [lia|].
+  unfold drape_slice, slice. rewrite firstn_length, skipn_length. lia.
+Qed.
+
+Lemma drape_n_centroids prisms bottoms :
+  drape_wf 0 prisms -> drape_total prisms = length bottoms ->
+  exists l, drape_centroids prisms bottoms = Ok l /\ length l = length bottoms.
+Proof.
+  intros Hwf Htot. unfold drape_centroids.
+  rewrite (drape_tops_length bottoms prisms 0 Hwf) by lia.
+  rewrite drape_xy_length, Htot, Nat.eqb_refl. simpl.
+  eexists. split; [reflexivity|].
+  rewrite !map2_length, drape_xy_length, (drape_tops_length bottoms prisms 0 Hwf) by lia. lia.
+Qed.
